@@ -105,7 +105,7 @@ def build(c, key):
     else:
         body = "(" + ", ".join(f"{fattrs[i]}{tys[i]}" for i in range(len(names))) + ")"
     lvl = c["level"]
-    cattr = f"#[{a}({vlib.rust_str(lit)}{args})]\n" if c["hasAttr"] else ""
+    cattr = f"#[{a}({vlib.rust_lit(lit)}{args})]\n" if c["hasAttr"] else ""
     # a third of the generic cases carry a where-clause of the user's own (the inferred bounds must be ADDED to it)
     # (every other one of them ends in a comma, as rustfmt writes multi-line where-clauses)
     wh = (" where " + ", ".join(f"{p}: Clone" for p in params) + ("," if vlib.seeded_pick(key, 37, 2) == 0 else "")) \
@@ -121,7 +121,7 @@ def build(c, key):
         name = "S"
     else:  # shared_wrap
         wl = "{_variant} " + lit
-        item = f"#[{a}({vlib.rust_str(wl)}{args})]\npub enum S{g}{wh} {{ V{body} }}"
+        item = f"#[{a}({vlib.rust_lit(wl)}{args})]\npub enum S{g}{wh} {{ V{body} }}"
         name = "S"
     return item, tys, params
 
@@ -257,7 +257,7 @@ def eb_build(c, key):
         lit += "{" + f0 + spec + "}"
     if not lit:
         lit = "lit"
-    litattr = f"#[{a}({vlib.rust_str(lit)}{''.join(', ' + x for x in args)})]" if c["lit"] else ""
+    litattr = f"#[{a}({vlib.rust_lit(lit)}{''.join(', ' + x for x in args)})]" if c["lit"] else ""
 
     def battr(prm):
         return f"#[{a}({c['spelling']}({prm}: Mk))]"
